@@ -32,11 +32,30 @@ def is_subsequence(got, want):
     return all(any(g == w for w in it) for g in got)
 
 
-def build_scene(rng):
-    vq = rng.random() < 0.4
-    nb = rng.choice([1, 2, 3])
+def long_tls_victim(rng, ep):
+    """a long one-sided-heavy history of short records, mostly one record per segment: what piles up behind a lost segment matters here"""
+    from vlib import suites
+    v, c, name, p = suites.pick(rng, {0x0300: 1, 0x0301: 1.5, 0x0302: 2, 0x0303: 3, 0x0304: 1})
+    spec, _ = tlssynth.random_spec(rng, v, c, nmax=0)
+    heavy = rng.choice("cs")
+    spec.app = [(heavy if rng.random() < 0.85 else ("c" if heavy == "s" else "s"), rng.randbytes(rng.choice([1, 20, 53, 60]))) for _ in range(rng.randrange(180, 360))]
+    spec.alert_end = False
+    conn = tlssynth.build_conn(spec, rng)
+    segkind = rng.choice(["records", "records", "random"])
+    fl = scene.tls_flow(conn, ep, tcpcap.segments(conn.events, ep, tcpcap.make_cutter(rng, segkind, conn.events)))
+    fl.label = f"tls-{suites.VNAME[v]}-{c:04X}-long"
+    fl.segkind = segkind
+    return fl
+
+
+def build_scene(rng, long_victim=False):
+    vq = rng.random() < 0.4 and not long_victim
+    nb = rng.choice([1, 2, 3]) if not long_victim else 1
     eps = gen.distinct_eps(rng, nb + 1, rng.choice(["random", "same-client-host", "random"]))
-    victim = gen.random_quic_flow(rng, 0, ep=eps[0], napp=rng.choice([3, 6, 10])) if vq else gen.random_tls_flow(rng, 0, ep=eps[0], nmax=6, min_records=2)
+    if long_victim:
+        victim = long_tls_victim(rng, eps[0])
+    else:
+        victim = gen.random_quic_flow(rng, 0, ep=eps[0], napp=rng.choice([3, 6, 10])) if vq else gen.random_tls_flow(rng, 0, ep=eps[0], nmax=6, min_records=2)
     flows = [victim]
     for i in range(nb):
         flows.append(gen.random_quic_flow(rng, i + 1, ep=eps[i + 1], napp=4) if rng.random() < 0.4 else gen.random_tls_flow(rng, i + 1, ep=eps[i + 1], nmax=6, min_records=1))
@@ -77,7 +96,7 @@ def build(tier, seed):
                 "distinct_crash_signatures_seen": sorted({t[6:] for r in results for t in r.get("tags", []) if t.startswith("crash:")})}
 
     return dict(cases=cases, evalfn=evalfn, level="fault_enumeration", min_nontrivial=60, extra=extra,
-                rule="per scene and fault kind: delete each victim packet; cut before each packet; every subset of the victim's key-log lines (TLS 1.3/QUIC all 2^4-2^5 "
+                rule="per scene and fault kind (every sixth scene has a long victim: 180-360 short records, so that much piles up behind a fault): delete each victim packet; cut before each packet; every subset of the victim's key-log lines (TLS 1.3/QUIC all 2^4-2^5 "
                      "subsets, <=1.2 present/absent); secrets replaced by random ones; ServerHello suite id replaced by 8 unknown/unsupported/GREASE values; bit flip at every "
                      "byte of the handshake packets and at sampled bytes elsewhere; overwrite; shorten; plain HTTP on 443; UDP payloads with every first byte x lengths "
                      "1..1500 and all lengths 1..8, with and without -a. Class = (victim kind, fault kind, position class, outcome); non-trivial = the fault run completed "
@@ -87,7 +106,8 @@ def build(tier, seed):
 
 def eval_case(case, seed, thorough):
     rng = random.Random(engine.subseed("C03", seed, "scene", case["scene"]))
-    flows, items = build_scene(rng)
+    long_victim = case["scene"] % 6 == 5 and case["kind"] in ("delete", "cut")
+    flows, items = build_scene(rng, long_victim)
     frng = random.Random(engine.subseed("C03", seed, case["id"]))
     victim = flows[0]
     vep = victim.ep
@@ -111,7 +131,8 @@ def eval_case(case, seed, thorough):
     kind = case["kind"]
     vkeys = set(victim.keylog)
     if kind == "delete":
-        for i in vidx if (thorough or len(vidx) <= 14) else sorted(frng.sample(vidx, 14)):
+        pick = vidx if (thorough and len(vidx) <= 60) or len(vidx) <= 14 else sorted(set(frng.sample(vidx[: max(14, len(vidx) // 3)], 8) + frng.sample(vidx, 6)))
+        for i in pick:
             faults.append((f"delete packet {i}", items[:i] + items[i + 1:], keys, [], "subseq" if victim.kind == "quic" else "prefix"))
     elif kind == "cut":
         # the victim's part of the capture ends (or starts) mid-connection; the bystanders' packets all stay (cutting the whole capture is C08)
